@@ -32,6 +32,12 @@ partial def exprOf : Sexp → Expr
       | some v => .const v
       | none => .other a
   | .list [.atom "and", a, b] => .and (exprOf a) (exprOf b)
+  | .list [.atom "-", a] =>
+    -- unary minus on an integer literal (the binder keeps `-2` as `(- 2)`; constant folding gives -2)
+    match exprOf a with
+    | .const (.i32 v) => .const (.i32 (-v))
+    | .const (.i64 v) => .const (.i64 (-v))
+    | _ => .other "neg"
   | .list [.atom op, a, b] =>
     match cmpOpOf op with
     | some o => .cmp o (exprOf a) (exprOf b)
@@ -86,6 +92,9 @@ partial def planOf : Sexp → Option Plan
     let m' ← limitOf m
     let p' ← planOf p
     pure (.limit n' (m'.getD 0) p')
+  | .list [.atom "empty", p] => do
+    let p' ← planOf p
+    pure (.empty p')
   | .list [.atom "topn", n, m, ks, p] => do
     let n' ← limitOf n
     let m' ← limitOf m
@@ -158,14 +167,9 @@ def bndVal : Bnd → Option Val
   | .incl v => some v
   | .excl v => some v
 
-/-- a block of column 0 that starts with the Included begin key while the previous row also has it -/
+/-- the boundary hypothesis of `rowset_range_scan_exact` fails in some row-set -/
 def dupAcrossBlocks (lay : List RowSet) (k : Nat) (r : KeyRange) : Bool :=
-  match r.lo with
-  | .incl v =>
-    lay.any fun rs =>
-      (blockStarts (rs.blocks.getD 0 [])).any fun s =>
-        s > 0 && Row.at (rs.rows.getD s []) k == v && Row.at (rs.rows.getD (s - 1) []) k == v
-  | _ => false
+  lay.any fun rs => !boundaryOk rs k r
 
 /-- Mechanisms of the implementation that can make `exec` differ from `spec` and are present in
 this request (the check maps them to known-finding signatures). -/
